@@ -94,7 +94,7 @@ fn c01_k1_release() {
     kani::cover!(n == 1, "the other key's state survives");
 }
 
-// @harness name=c01_k1_release_other prop=C01,C04 tier=quick timeout=1500
+// @harness name=c01_k1_release_other prop=C01 tier=quick timeout=1500
 // @encodes as c01_k1_release
 // @inst Layout<3, 2, u8>
 // @bounds as c01_k1_release but the first state belongs to another key
@@ -108,7 +108,7 @@ fn c01_k1_release_other() {
     kani::cover!(n == 1, "only the released key's state goes");
 }
 
-// @harness name=c01_k1_release_oneshot prop=C01,C04,C06 tier=quick timeout=1500
+// @harness name=c01_k1_release_oneshot prop=C01,C06 tier=quick timeout=1500
 // @encodes as c01_k1_release
 // @inst Layout<3, 2, u8>
 // @bounds as c01_k1_release, with one active one-shot key at a symbolic coordinate (all 4 end configs)
